@@ -77,7 +77,10 @@ func GateSpecs(c *Ctx, prop string) []GateSpec {
 		)...)
 	case "C07":
 		s = rets("share.RecoverSecret", "share.RecoverCommit", "share.RecoverPriPoly", "share.RecoverPubPoly", "(*share.PubPoly).Check",
-			"(*share.PriPoly).Add", "(*share.PubPoly).Add")
+			"(*share.PriPoly).Add", "(*share.PubPoly).Add", "share.xyScalar", "share.xyCommit")
+		// which shares enter the interpolation: exactly today's conditions (nil entries, index range, first t)
+		s = append(s, GateSpec{Func: "share.xyScalar", Sink: `mapupdate:`, NoRet: true, Exact: true},
+			GateSpec{Func: "share.xyCommit", Sink: `mapupdate:`, NoRet: true, Exact: true})
 	case "C08":
 		s = rets("sign/schnorr.VerifyWithChecks", "sign/schnorr.Verify", "(*sign/schnorr.Scheme).Verify", "sign/schnorr.hash",
 			"sign/eddsa.VerifyWithChecks", "sign/eddsa.Verify", "sign/anon.Verify",
